@@ -775,7 +775,7 @@ def _err_class(exc):
     return "other:" + type(exc).__name__
 
 
-async def _pair_client(name, prior, fault, world, loop, pins=None, ops=None):
+async def _pair_client(name, prior, fault, world, loop, pins=None, ops=None, config=None):
     """begin(); pin(); finish() on the real handler obtained from pyatv.pair()."""
     import pyatv
     from pyatv.conf import AppleTV, ManualService
@@ -816,7 +816,15 @@ async def _pair_client(name, prior, fault, world, loop, pins=None, ops=None):
         p.start()
     handler = None
     try:
-        handler = await pyatv.pair(conf, protocol, loop, storage=storage)
+        kwargs = {}
+        if config and "name" in config:
+            # the name the handler presents itself with: `name=` for Companion / AirPlay / RAOP,
+            # settings.info.name for MRP (sent in DEVICE_INFORMATION)
+            if name == "mrp":
+                settings.info.name = config["name"]
+            else:
+                kwargs["name"] = config["name"]
+        handler = await pyatv.pair(conf, protocol, loop, storage=storage, **kwargs)
         _instrument(service, "credentials", world.events, "storeService")
         _instrument(getattr(settings.protocols, slot), "credentials", world.events, "storeSettings")
         _instrument(handler, "_has_paired", world.events, "setPaired")
@@ -870,13 +878,13 @@ async def _pair_client(name, prior, fault, world, loop, pins=None, ops=None):
     return obs
 
 
-def run_one(name, prior, fault, rng, pins=None, ops=None):
+def run_one(name, prior, fault, rng, pins=None, ops=None, config=None):
     """Execute one case on the real code; returns the observation dict (never raises for
     exceptions of the code under test).  `pins` = (PIN of the device as 4-digit string, PIN
     handed to handler.pin()) or None for the fake devices' defaults; for DMAP
     (PIN handed to handler.pin(), pairing code the device sends: ("pin", n) | ("raw", text))."""
     if name == "dmap":
-        return run_dmap(prior, fault, rng, pins, ops)
+        return run_dmap(prior, fault, rng, pins, ops, config)
     codec = CONFIGS[name][2]()
     world = World(codec, fault, rng)
     loop = PipeLoop(world)
@@ -884,7 +892,7 @@ def run_one(name, prior, fault, rng, pins=None, ops=None):
 
     async def main():
         loop.listeners[PORT] = _peer_factory(name, loop, state_box, pins[0] if pins else None)
-        return await _pair_client(name, prior, fault, world, loop, pins, ops)
+        return await _pair_client(name, prior, fault, world, loop, pins, ops, config)
 
     logging.disable(logging.CRITICAL)
     unhook = _hook_sealing(world) if world.inner else (lambda: None)
@@ -964,10 +972,13 @@ class _Device(asyncio.Protocol):
         self.done.set()
 
 
-def _dmap_code(guid, pin):
+def _dmap_code(guid, pin, published=None):
+    """pairing code as the device computes it: from the `Pair` value the handler published over
+    Zeroconf (or, without it, from the guid the handler was configured with)"""
     import hashlib
-    merged = guid[2:].upper() + "".join(ch + "\x00" for ch in str(pin).zfill(4))
-    return hashlib.md5(merged.encode()).hexdigest().upper()
+    pair = published if published is not None else guid[2:].upper()
+    merged = pair + "".join(ch + "\x00" for ch in str(pin).zfill(4))
+    return hashlib.md5(merged.encode("utf-8", "surrogatepass")).hexdigest().upper()
 
 
 def dmap_variants():
@@ -988,9 +999,10 @@ async def _dmap_device(loop, world, port, fault, rng, pins=None):
     link = Link(loop, port, device, factory(), world)
     world.links.append(link)
     link.start()
-    code = _dmap_code(DMAP_GUID, 4321 if kind == "wrongpin" else DMAP_PIN)
+    published = getattr(world, "dmap_pair", None)
+    code = _dmap_code(DMAP_GUID, 4321 if kind == "wrongpin" else DMAP_PIN, published)
     if pins is not None:
-        code = _dmap_code(DMAP_GUID, pins[1][1]) if pins[1][0] == "pin" else pins[1][1]
+        code = _dmap_code(DMAP_GUID, pins[1][1], published) if pins[1][0] == "pin" else pins[1][1]
     query = {"pairingcode": code, "servicename": "c08device"}
     if kind == "missing":
         query.pop(variant)
@@ -1018,7 +1030,7 @@ async def _dmap_device(loop, world, port, fault, rng, pins=None):
     return status
 
 
-def run_dmap(prior, fault, rng, pins=None, ops=None):
+def run_dmap(prior, fault, rng, pins=None, ops=None, config=None):
     codec = type("DmapCodec", (), {"name": "dmap", "wire": True, "decode": staticmethod(lambda d: Reply("dmap", "http-response"))})()
     world = World(codec, None, rng)     # the pipe itself injects nothing; the device script does
     world.inverted = True
@@ -1043,8 +1055,10 @@ def run_dmap(prior, fault, rng, pins=None, ops=None):
             getattr(settings.protocols, other).credentials = "untouched-" + other
         zeroconf = ZeroconfStub([])
         obs = {"prior": old, "prior_settings": old_settings, "slot": "dmap"}
+        config_ = dict({"pairing_guid": DMAP_GUID, "name": "c08 remote"}, **(config or {}))
         handler = await pyatv.pair(conf, Protocol.DMAP, loop, storage=storage, zeroconf=zeroconf,
-                                   pairing_guid=DMAP_GUID, name="c08 remote", addresses=["127.0.0.1"])
+                                   pairing_guid=config_["pairing_guid"], name=config_["name"],
+                                   addresses=config_.get("addresses", ["127.0.0.1"]))
         try:
             _instrument(service, "credentials", world.events, "storeService")
             _instrument(settings.protocols.dmap, "credentials", world.events, "storeSettings")
@@ -1055,6 +1069,9 @@ def run_dmap(prior, fault, rng, pins=None, ops=None):
             try:
                 await handler.begin()
                 world.events.append("listen")
+                if zeroconf.registered_services:
+                    props = zeroconf.registered_services[0].properties
+                    world.dmap_pair = (props.get(b"Pair") or b"").decode("utf-8", "surrogatepass")
             except Exception as ex:
                 exc, where = ex, "begin"
             if exc is None and ops is not None:
@@ -1065,7 +1082,7 @@ def run_dmap(prior, fault, rng, pins=None, ops=None):
                         if op[0] == "pin":
                             handler.pin(op[1])
                         elif op[0] == "request":
-                            port = zeroconf.registered_services[0].port if zeroconf.registered_services else None
+                            port = zeroconf.registered_services[0].port if zeroconf.registered_services else next(iter(loop.listeners), None)
                             status = await _dmap_device(loop, world, port, None, rng, (None, op[1]))
                         elif op[0] == "finish":
                             await handler.finish()
@@ -1077,7 +1094,7 @@ def run_dmap(prior, fault, rng, pins=None, ops=None):
                                   "settings": settings.protocols.dmap.credentials})
             elif exc is None:
                 handler.pin(DMAP_PIN if pins is None else pins[0])
-                port = zeroconf.registered_services[0].port if zeroconf.registered_services else None
+                port = zeroconf.registered_services[0].port if zeroconf.registered_services else next(iter(loop.listeners), None)
                 obs["device"] = await _dmap_device(loop, world, port, fault, rng, pins)
                 obs["paired_mid"] = bool(handler.has_paired)
                 obs["svc_mid"] = service.credentials
@@ -1325,6 +1342,11 @@ def run(ctx, only=None):
                 continue
             full = ctx.thorough or prior in ("NN", "AA")
             script = script_name(name, prior)
+            if only is not None and only.get("config") is not None:
+                fault = None if only["index"] is None else (only["index"], only["kind"], only["variant"])
+                pins = only.get("pins")
+                evaluate_config(ctx, name, prior, only["config"], fault, tuple(pins) if pins else None)
+                continue
             if only is not None and only.get("ops") is not None:
                 ops = [tuple(tuple(x) if isinstance(x, list) else x for x in o) for o in only["ops"]]
                 obs = run_one(name, prior, None, ctx.rng.fork("seq", name, repr(ops)), ops=ops)
@@ -1399,6 +1421,7 @@ def run(ctx, only=None):
         return
     pin_sweep(ctx, lines, pending)
     sequence_sweep(ctx, lines, pending)
+    config_sweep(ctx, lines, pending)
     # --- error_handler itself: what class reaches the caller for each kind of inner failure
     for kind, cls in probe_error_handler():
         lines.append("errclass handler " + kind)
@@ -1491,6 +1514,85 @@ def pin_sweep(ctx, lines, pending):
                 ctx.note("pin:" + ("boundary" if pin in (0, 1, 9999) else "other") + (":" + fault[1] if fault else ":right"))
                 lines.append(line)
                 pending.append(("run", case, canon_obs(obs)))
+
+
+# ------------------------------------------------------------------------------------------
+# handler configuration values
+# ------------------------------------------------------------------------------------------
+CONFIG_NAMES = ["\u00dcn\u00ef\u00a9\u00f8d\u00e9 \U0001f4fa \u540d\u524d", "", "x" * 300, "bad\udc80name", "a\x00b", "caf\u00e9\u0301 \u202eevil"]
+CONFIG_GUIDS = [None, "0x0000000000000001", "0xFFFFFFFFFFFFFFFF", "0x0123456789ABCDEF0123456789ABCDEF",
+                "0xNOTHEXNOTHEX0000", "0xabcdef0123456789", "0x", "0123456789ABCDEF", "0x-000000000000001"]
+
+
+def evaluate_config(ctx, name, prior, config, fault, pins=None):
+    """A run with an unusual but accepted configuration value.  Whether the exchange succeeded
+    is read off the exchange itself (DMAP: the device got 200; others: no exception), then the
+    property is applied: succeeded -> stored in both places and reported; failed -> raised,
+    nothing stored, not reported.  An exception of begin() before any traffic (the configuration
+    itself was refused) is not an exchange failure: only the state is judged."""
+    obs = run_one(name, prior, fault, ctx.rng.fork("config", name, repr(config), repr(fault)), pins, None, config)
+    label = "request" if name == "dmap" else "config"
+    case = {"handler": name, "prior": prior, "index": fault[0] if fault else None, "kind": fault[1] if fault else None,
+            "variant": fault[2] if fault else None, "message": label, "rep": 0,
+            "config": {k: v for k, v in config.items()}}
+    if pins is not None:
+        case["pins"] = [pins[0], list(pins[1]) if isinstance(pins[1], (tuple, list)) else pins[1]]
+    if name == "dmap":
+        exchange_ok = fault is None and str(obs.get("device", "")).split(" ")[1:2] == ["200"]
+    else:
+        exchange_ok = fault is None and obs.get("err") is None and not obs.get("harness_error")
+    events = obs.get("events") or []
+    refused = obs.get("where") == "begin" and not any(e in ("connect", "recv", "fault", "send") for e in events)
+    pseudo = None if exchange_ok else (fault or (0, "config", "-"))
+    o2 = dict(obs, injected=True)
+    summary = {k: obs.get(k) for k in ("err", "exc_name", "exc_text", "where", "paired", "svc", "prior", "prior_settings", "device")}
+    for tag, text in oracle(name, o2, pseudo):
+        if refused and (tag.startswith("error-class") or tag == "no-error-raised"):
+            continue
+        ctx.fail("%s:%s:%s:%s" % (name, label, (fault[1] if fault else "config"), tag), case, summary,
+                 "exchange succeeded -> credentials in service and settings, has_paired; failed -> pairing/connection "
+                 "error, nothing stored, has_paired false", text + " [configuration %r]" % (config,))
+    return case, obs, exchange_ok
+
+
+def config_sweep(ctx, lines, pending):
+    prior = "AB"
+    rng = ctx.rng.fork("config")
+    # --- DMAP: pairing guid and remote name of every accepted shape, right code / wrong code / missing field
+    configs = [{"pairing_guid": g} for g in CONFIG_GUIDS] + [{"name": n} for n in CONFIG_NAMES]
+    configs += [{"name": n, "addresses": []} for n in CONFIG_NAMES[2:4]]       # nothing to publish on
+    configs += [{"pairing_guid": CONFIG_GUIDS[3], "name": CONFIG_NAMES[0]}]
+    for config in configs:
+        for fault in (None, (0, "wrongpin", "-"), (0, "missing", "servicename")):
+            pins = (0, ("pin", 0)) if fault is None and rng.chance(0.5) else None
+            case, obs, ok = evaluate_config(ctx, "dmap", prior, config, fault, pins)
+            ctx.case(["config", "dmap", repr(config), list(fault or ())], True,
+                     sample={"config": repr(config), "device_got": obs.get("device"), "paired": obs.get("paired")})
+            ctx.note("config:dmap:" + ("ok" if ok else "failed"))
+            if obs.get("where") == "begin":
+                continue                                  # configuration refused before any exchange
+            status = str(obs.get("device", "")).split(" ")[1:2]
+            word = ("r1" if fault is None else "r2" if fault[1] == "wrongpin" else "rx")
+            if fault is None and status != ["200"]:
+                word = "b1"                               # right code, answer could not be built
+            lines.append("dmapseq p1,%s,f" % word)
+            stored = obs.get("svc") not in (obs.get("prior"),) and obs.get("svc") == (obs.get("settings") or {}).get("dmap")
+            pending.append(("dmapseq", case, "%d %d %s" % (bool(obs.get("paired")), stored, "1" if status == ["200"] else "0")))
+    # --- the others: the name the handler presents itself with (kwarg `name`; MRP: settings.info.name)
+    for name in [h for h in HANDLERS if h != "dmap"]:
+        names = list(CONFIG_NAMES) if ctx.thorough else [CONFIG_NAMES[3], rng.choice([n for n in CONFIG_NAMES if n != CONFIG_NAMES[3]])]
+        for i, n in enumerate(names):
+            plans = [None]
+            if ctx.thorough or i == 1:
+                base = run_one(name, prior, None, rng.fork(name, "recon"))
+                proof = next((j for j, r in enumerate(base.get("replies", []), 1) if PROOF_REPLY.get(r.label)), None)
+                if proof:
+                    plans.append((proof, "wrongpin", "-"))
+            for fault in plans:
+                case, obs, ok = evaluate_config(ctx, name, prior, {"name": n}, fault)
+                ctx.case(["config", name, n, list(fault or ())], True,
+                         sample={"handler": name, "name": repr(n)[:40], "raised": obs.get("exc_name"), "paired": obs.get("paired")})
+                ctx.note("config:%s:%s" % (name, "ok" if ok else "failed"))
 
 
 # ------------------------------------------------------------------------------------------
@@ -1641,5 +1743,7 @@ def match_finding(failure, entry):
     if len(parts) < 4:
         return False
     handler, message, kind, tag = parts[0], parts[1], parts[2], ":".join(parts[3:])
-    return (handler == m.get("handler") and message == m.get("message") and kind in m.get("kinds", [])
-            and tag == m.get("problem"))
+    # "config" = the exchange failed because the handler's own configuration made its answer
+    # unencodable: the same finding (DMAP never raises), whatever made the exchange fail
+    return (handler == m.get("handler") and message == m.get("message")
+            and (kind in m.get("kinds", []) or kind == "config") and tag == m.get("problem"))
